@@ -616,4 +616,151 @@ theorem unmarshalTupleScan_spec (p : Nat) :
             · subst he0; exact hnull hv0
             · subst he0; exact hsome x hx
           simp [unmarshalTupleScan, hs, hm, hf, ih]
+
+/-- what unmarshalTuple does with one decoded element `v` (a value of goType(elem)) for a struct field / slice or
+    array element of type `g`: a pointer field gets the pointer for a present element (EMPTY included) and nil for
+    null; interface{} and goType fields get the value; any other field type makes reflect.Value.Set panic -/
+def setSlot (t : CqlTy) (g : GoTy) (item : Option Bytes) (v : GoVal) : URes :=
+  match g with
+  | .ptr g' => if g' == goTypeOf t then (if item.isSome then .ok (.ptr v) else .ok .nilptr) else .crash
+  | .iface => .ok v
+  | g => if g == goTypeOf t then .ok v else
+      (match g, v with
+       | .arr16, .uuid b => .ok (.arr16 b)
+       | .bytes true, .bytes false isNil b => .ok (.bytes true isNil b)
+       | .ip, .bytes false _ b => .ok (.ip b)
+       | _, _ => .crash)
+
+/-- one field of `unmarshalTupleSet`: decode into goType(elem), then the slot -/
+def setField (p : Nat) (t : CqlTy) (g : GoTy) (item : Option Bytes) : URes :=
+  match withPtr (unmarshalBase p t) (goTypeOf t) item with
+  | .ok v => setSlot t g item v
+  | other => other
+
+theorem unmarshalTupleSet_cons (p : Nat) (t : CqlTy) (ts : List CqlTy) (g : GoTy) (gs : List GoTy) (data : Bytes) :
+    unmarshalTupleSet p (t :: ts) (g :: gs) data =
+      (match (if !(shorter data 4) then readBytesM data else some (none, data)) with
+       | none => .crash
+       | some (item, r) => (match setField p t g item with
+          | .ok sv => (match unmarshalTupleSet p ts gs r with
+              | .ok vs r' => .ok (sv :: vs) r'
+              | other => other)
+          | .err => .err | .crash => .crash | .unmodelled => .unmodelled)) := by
+  rw [unmarshalTupleSet]
+  cases hrd : (if !(shorter data 4) then readBytesM data else some (none, data)) with
+  | none => rfl
+  | some ir =>
+    obtain ⟨item, r⟩ := ir
+    simp only [setField, setSlot]
+    cases hw : withPtr (unmarshalBase p t) (goTypeOf t) item <;> simp only []
+    cases g <;> rfl
+
+/-- field-wise hypothesis for struct / slice / array targets of a tuple -/
+inductive SetOK (p : Nat) : List CqlTy → List GoTy → List CqlVal → List GoVal → Prop
+  | nil {gs} : SetOK p [] gs [] []
+  | absent {t ts g gs x xs} : setField p t g none = .ok x → SetOK p ts gs [] xs →
+      SetOK p (t :: ts) (g :: gs) [] (x :: xs)
+  | cons {t ts g gs c cs x xs} :
+      (c = .null → setField p t g none = .ok x) →
+      (∀ b, specDec p t b = some c → setField p t g (some b) = .ok x) →
+      SetOK p ts gs cs xs → SetOK p (t :: ts) (g :: gs) (c :: cs) (x :: xs)
+
+/-- unmarshalTuple into a struct / slice / array = the specification's field loop followed by the slot rule: every
+    field the specification reader delivers — null (−1), EMPTY (0) or bytes — reaches `setField` as such (so a pointer
+    field is nil exactly for null and a pointer to the decoded value otherwise); absent trailing fields are null -/
+theorem unmarshalTupleSet_spec (p : Nat) :
+    ∀ (ts : List CqlTy) (gs : List GoTy) (b : Bytes) (cs : List CqlVal) (xs : List GoVal),
+      specDecFields p ts b = some cs → SetOK p ts gs cs xs → unmarshalTupleSet p ts gs b = .ok xs []
+  | [], gs, b, cs, xs, h, hok => by
+    cases hok
+    simp only [specDecFields] at h
+    by_cases hb : b = []
+    · subst hb; simp [unmarshalTupleSet]
+    · rw [if_neg hb] at h; cases h
+  | t :: ts, gs, b, cs, xs, h, hok => by
+    by_cases hb : b = []
+    · subst hb
+      rw [specDecFields_nil] at h
+      injection h with h
+      subst h
+      cases hok with
+      | absent hx hrest =>
+        rename_i g gs' x xs'
+        have ih := unmarshalTupleSet_spec p ts gs' [] [] xs' (specDecFields_nil p ts) hrest
+        rw [unmarshalTupleSet_cons]
+        simp [shorter, hx, ih]
+    · simp only [specDecFields, hb, if_false, Option.bind_eq_bind] at h
+      cases he : readBytesFrame b with
+      | none => rw [he] at h; simp at h
+      | some er =>
+        obtain ⟨e, r1⟩ := er
+        rw [he] at h
+        simp only [Option.bind_some] at h
+        have hm := readBytesM_of_readBytesFrame b r1 e he
+        have hs := readBytesFrame_not_shorter b r1 e he
+        have key : ∃ v vs, cs = v :: vs ∧ specDecFields p ts r1 = some vs ∧
+            ((e = none ∧ v = .null) ∨ (∃ x, e = some x ∧ specDec p t x = some v)) := by
+          cases e with
+          | none =>
+            cases hr : specDecFields p ts r1 with
+            | none => simp [hr] at h
+            | some vs => exact ⟨.null, vs, by simpa [hr] using h.symm, rfl, .inl ⟨rfl, rfl⟩⟩
+          | some x =>
+            cases hx : specDec p t x with
+            | none => simp [hx] at h
+            | some v =>
+              cases hr : specDecFields p ts r1 with
+              | none => simp [hx, hr] at h
+              | some vs => exact ⟨v, vs, by simpa [hx, hr] using h.symm, rfl, .inr ⟨x, rfl, hx⟩⟩
+        obtain ⟨v, vs, hcs, hrest, hv⟩ := key
+        subst hcs
+        cases hok with
+        | cons hnull hsome hrestok =>
+          rename_i g gs' x xs'
+          have ih := unmarshalTupleSet_spec p ts gs' r1 vs xs' hrest hrestok
+          have hf : setField p t g e = .ok x := by
+            rcases hv with ⟨he0, hv0⟩ | ⟨x, he0, hx⟩
+            · subst he0; exact hnull hv0
+            · subst he0; exact hsome x hx
+          rw [unmarshalTupleSet_cons]
+          simp [hs, hm, hf, ih]
+
+mutual
+theorem beqT_refl : ∀ g : GoTy, GoTy.beqT g g = true
+  | .int k n => by simp [GoTy.beqT]
+  | .str n => by simp [GoTy.beqT]
+  | .bytes n => by simp [GoTy.beqT]
+  | .bool n => by simp [GoTy.beqT]
+  | .f32 n => by simp [GoTy.beqT]
+  | .f64 n => by simp [GoTy.beqT]
+  | .big => by simp [GoTy.beqT]
+  | .dec => by simp [GoTy.beqT]
+  | .time => by simp [GoTy.beqT]
+  | .dur => by simp [GoTy.beqT]
+  | .cqldur => by simp [GoTy.beqT]
+  | .uuid => by simp [GoTy.beqT]
+  | .arr16 => by simp [GoTy.beqT]
+  | .ip => by simp [GoTy.beqT]
+  | .ptr a => by simp [GoTy.beqT, beqT_refl a]
+  | .slice a => by simp [GoTy.beqT, beqT_refl a]
+  | .array n a => by simp [GoTy.beqT, beqT_refl a]
+  | .map k v => by simp [GoTy.beqT, beqT_refl k, beqT_refl v]
+  | .iface => by simp [GoTy.beqT]
+  | .ifaces as => by simp [GoTy.beqT, beqTs_refl as]
+  | .struct as => by simp [GoTy.beqT, beqTs_refl as]
+  | .udtmap => by simp [GoTy.beqT]
+  | .udtstruct ns as => by simp [GoTy.beqT, beqTs_refl as]
+theorem beqTs_refl : ∀ gs : List GoTy, GoTy.beqTs gs gs = true
+  | [] => by simp [GoTy.beqTs]
+  | a :: as => by simp [GoTy.beqTs, beqT_refl a, beqTs_refl as]
+end
+
+/-- the slot rule keeps null and EMPTY apart: for a pointer field of the right type a present element — empty or
+    not — gives a non-nil pointer, a null element the nil pointer -/
+theorem setSlot_ptr (t : CqlTy) (item : Option Bytes) (v : GoVal) :
+    setSlot t (.ptr (goTypeOf t)) item v = if item.isSome then .ok (.ptr v) else .ok .nilptr := by
+  have : (goTypeOf t == goTypeOf t) = true := by
+    show GoTy.beqT (goTypeOf t) (goTypeOf t) = true
+    exact beqT_refl (goTypeOf t)
+  simp [setSlot, this]
 end C12Frame
